@@ -15,6 +15,8 @@ def main():
     out = {}
     for n in range(1, 21):
         cid = f"C{n:02d}"
+        if os.environ.get("IMPORT_ONLY") and cid not in os.environ["IMPORT_ONLY"].split(","):
+            continue
         for v in (sys.argv[1:] or ["a", "b"]):
             src = f"/tmp/wt/{cid}/out/{v}"
             if not (os.path.exists(f"{src}/patch.diff") and os.path.exists(f"{src}/meta.json") and os.path.exists(f"{src}/demo.py")):
@@ -57,7 +59,9 @@ def main():
                 meta.update({"id": mid, "property": cid, "verified": out[mid],
                              "what_i_ran": f"in a scratch worktree of /repo HEAD: {how}; pytest (290 passed); demo.py exits {rc_d} with the change and {rc_c} without"})
                 json.dump(meta, open(f"{d}/meta.json", "w"), indent=1)
-    json.dump(out, open("/verif/seeded/import_log.json", "w"), indent=1)
+    old = json.load(open("/verif/seeded/import_log.json")) if os.environ.get("IMPORT_ONLY") and os.path.exists("/verif/seeded/import_log.json") else {}
+    old.update(out)
+    json.dump(old, open("/verif/seeded/import_log.json", "w"), indent=1)
 
 
 main()
